@@ -45,15 +45,17 @@ def sigma_clip(v, sigma, maxiters, info=None):
     distance |x - bound| between any pixel and any clipping bound that was
     evaluated (every iteration, including the last one that rejects nothing):
     the keep/reject decisions are stable under perturbations of the bounds
-    smaller than that.  A sample of ONE value does not contribute: its median
-    is the value and its std is exactly 0 in any arithmetic, so it is kept
-    whatever is added to or multiplied with it."""
+    smaller than that.  A sample of EQUAL values (in particular of one value)
+    does not contribute: its median is exactly that value in any arithmetic
+    (an element, or 0.5 * (x + x)) and the computed std is some number >= 0, so
+    every pixel satisfies median - sigma*std <= x <= median + sigma*std and is
+    kept whatever is added to or multiplied with the sample."""
     v = np.asarray(v, dtype=float)
     it = 0
     while v.size and (maxiters is None or it < maxiters):
         it += 1
         c, s = median(v), std(v)
-        if info is not None and v.size > 1:      # one value: median == value, std == 0 exactly, kept at any offset/scale
+        if info is not None and v.size > 1 and float(np.ptp(v)) > 0:    # equal values: kept at any offset/scale
             m = float(min(np.min(np.abs(v - (c - sigma * s))), np.min(np.abs(v - (c + sigma * s)))))
             info['margin'] = min(info.get('margin', math.inf), m)
         keep = (v >= c - sigma * s) & (v <= c + sigma * s)
@@ -163,13 +165,26 @@ def included(ngood, box_npix, exclude_percentile):
     return lhs <= rhs, lhs == rhs
 
 
-def reference_mesh(data, good, box, edge, exclude_percentile, clip, bkg_name, rms_name):
+def box_class(vals):
+    """Degeneracy class of the (clipped) pixel sample of one box:
+    'empty', 'constant' (all values equal: std == MAD == 0), 'MAD==0,ptp>0'
+    (at least half of the values equal the median, not all), 'MAD>0'."""
+    if len(vals) == 0:
+        return 'empty'
+    if float(np.ptp(vals)) == 0:
+        return 'constant'
+    return 'MAD==0,ptp>0' if mad(vals) == 0 else 'MAD>0'
+
+
+def reference_mesh(data, good, box, edge, exclude_percentile, clip, bkg_name, rms_name, classify=False):
     """-> dict with arrays (mesh shape): bkg, rms (NaN where excluded), npix
     (good pixels after clipping), incl (bool), boundary (bool), nclipped, and the
     two scalars that say how well-posed the discontinuous steps are on this
     input: clip_margin (smallest |pixel - clipping bound| over all boxes and
     iterations; inf without clipping) and branch_margin (smallest distance of a
-    box from the SExtractor branch switch; inf for the other estimators)."""
+    box from the SExtractor branch switch; inf for the other estimators).
+    ``classify``: additionally 'cls' (object array of `box_class` strings of the
+    clipped sample of every box)."""
     data = np.asarray(data, dtype=float)
     my, mx = mesh_shape(data.shape, box, edge)
     by, bx = box
@@ -178,6 +193,8 @@ def reference_mesh(data, good, box, edge, exclude_percentile, clip, bkg_name, rm
     out['incl'] = np.zeros((my, mx), dtype=bool)
     out['boundary'] = np.zeros((my, mx), dtype=bool)
     out['nclipped'] = 0
+    if classify:
+        out['cls'] = np.full((my, mx), 'empty', dtype=object)
     out['clip_margin'] = math.inf
     out['branch_margin'] = math.inf
     info = {}
@@ -190,6 +207,8 @@ def reference_mesh(data, good, box, edge, exclude_percentile, clip, bkg_name, rm
                 out['nclipped'] += vals.size - kept.size
                 vals = kept
             out['npix'][j, i] = vals.size
+            if classify:
+                out['cls'][j, i] = box_class(vals)
             inc, bnd = included(vals.size, by * bx, exclude_percentile)
             out['incl'][j, i] = inc
             out['boundary'][j, i] = bnd
@@ -201,6 +220,46 @@ def reference_mesh(data, good, box, edge, exclude_percentile, clip, bkg_name, rm
                     out['branch_margin'] = min(out['branch_margin'], sextractor_branch_margin(vals))
     out['clip_margin'] = info.get('margin', math.inf)
     return out
+
+
+# ---------------------------------------------------------------- degenerate-statistic boxes
+def multiset_boxes(letters, npb):
+    """Every multiset of m = 0 .. npb values over ``letters`` (ascending
+    tuples), ordered by m, then lexicographically: the complete list of
+    distinguishable pixel samples of a box of npb pixels whose good pixels
+    take values in a finite alphabet (box statistics do not depend on the
+    arrangement).  len == C(npb + len(letters), len(letters))."""
+    import itertools
+    out = []
+    for m in range(npb + 1):
+        out.extend(itertools.combinations_with_replacement(tuple(letters), m))
+    return out
+
+
+def multiset_image(letters, box, level, quantum, junk):
+    """One image holding every box of `multiset_boxes` exactly once.
+
+    Mesh cell number b (row-major, mesh shape = the factorisation my * mx of
+    the number of boxes with my <= mx closest to a square) holds multiset
+    number b: its m values level + quantum * letter, ascending, are written to
+    the row-major box positions (k + b) % npb, k = 0 .. m-1; the other npb - m
+    pixels of the box are masked and hold ``junk``.
+    -> data (float64), mask (bool), boxes (list of tuples), mesh shape"""
+    by, bx = box
+    npb = by * bx
+    boxes = multiset_boxes(letters, npb)
+    n = len(boxes)
+    my = max(d for d in range(1, int(math.isqrt(n)) + 1) if n % d == 0)
+    mx = n // my
+    data = np.full((my * by, mx * bx), float(junk))
+    mask = np.ones(data.shape, dtype=bool)
+    for b, ms in enumerate(boxes):
+        j, i = divmod(b, mx)
+        for k, letter in enumerate(ms):
+            y, x = divmod((k + b) % npb, bx)
+            data[j * by + y, i * bx + x] = level + quantum * letter
+            mask[j * by + y, i * bx + x] = False
+    return data, mask, boxes, (my, mx)
 
 
 def median_filter(mesh, decide, fsize, threshold):
